@@ -246,8 +246,8 @@ def main():
     run.require("tauleap_rate_steps", "flagged_entry_samples", "euler_unflagged_step_entries", "gillespie_steps_classified", "dstatedt_entries",
                 "dxdtf_entries", "apply_reaction_entries")
     thorough = tier() == "thorough"
-    n_total = 8000 if thorough else 2400
-    n_py = 1500 if thorough else 480
+    n_total = 20000 if thorough else 2400
+    n_py = 4000 if thorough else 480
     cases = [{"seed": seed(), "idx": i, "python": i < n_py} for i in range(n_total)]
     res = pmap("vf.checks.c03:run_case", cases, cpu_budget=30)
     pool = stoch.Pool()
